@@ -17,6 +17,7 @@ Line-protocol driver for C19 (group chain). One op per line:
   count | last | byheight <i> | byid <x> | iter | sync <x> | syncat <h> <n> | dump | mirror
   below <x> (getFirstGroupBelowHeight) | top (height()) | avail <h> | availm <h> <miner>
   switch <h> <id,pre,parent,create[,members]> …   groupChainFork.triggerOnChain from the ancestor at height h
+  addnil | rmnil | addrej <id> <pre> <parent> <create>   AddGroup(nil), remove(nil), AddGroup of a group CheckGroup refuses
   config duration <n>                  common.GetGroupWorkDuration() of the node (AddGroup's header rewrite)
 
 Answers: see `harness/cmd/c19/main.go` (same formats, produced from the real code).
@@ -122,6 +123,7 @@ def bootStr : Option Boot → String
 def addResStr : AddRes → String
   | .ok => "ok" | .exists_ => "exists" | .noParent => "no-parent" | .preMismatch => "pre-mismatch"
   | .writeErr => "write-error"
+  | .checkFail => "check-fail"
 
 /-- Following `pre` from the group that `gcurrent` names never ends. The real start-up then
     never returns (`refreshCache` has no cycle guard); only reachable after a crash in the middle
@@ -290,6 +292,12 @@ def step (s : DState) (line : String) : DState × String :=
         if preCycle c.disk then ({ s with boot := none }, "unmodelled") else
         let b := restart c.disk c.mirror s.genesis
         ({ s with boot := b }, bootStr b)
+      | ["addnil"] => (s, "nil-group " ++ status c)
+      | ["rmnil"] => (s, "true " ++ status c)
+      | ["addrej", a, b, p, cr] =>
+        match parseAdd s.dur a b p cr with
+        | none => (s, "bad-op")
+        | some g => let r := addGroupRefused c g; (s, addResStr r.1 ++ " " ++ status r.2)
       | "switch" :: h :: toks =>
         -- the fork switch: removeFromCommonAncestor(group at height h), then AddGroup of the fork's groups
         match parseNat? h, parseAll parseForkGroup toks with
